@@ -395,6 +395,10 @@ func TestZZGovcReplay(t *testing.T) {
 func init() {
 	replayDrivers["httpgrpc.(*Channel).Invoke"] = func(cc *checkCtx, rec *obRecord, f *Failure) map[string]interface{} {
 		res := map[string]interface{}{"attempted": false}
+		if strings.Contains(rec.o.Name, "a_failed_read_of_the_reply_body_is_never_a_bare_context_error") {
+			res["inputs"] = map[string]interface{}{"scenario": "the reply body's Read fails with the context error (what net/http's body does when the request context ends mid-body) and the receive of the reader goroutine's signal wins the select"}
+			return runDriver(cc, modulePath+"/httpgrpc", invokeBodyCtxErrDriver, res)
+		}
 		if !strings.Contains(rec.o.Name, "peer_reports_the_connection_tls_state") {
 			res["reason"] = "no replay scenario for this obligation"
 			return res
@@ -902,6 +906,52 @@ func TestZZGovcReplay(t *testing.T) {
 	case "stream-bin-trailer-not-utf8":
 		if got := cs.Trailer()["k-bin"]; err == nil || err.Error() != "EOF" || len(got) != 1 || got[0] != trailerVal {
 			t.Fatalf("GOVC-REPLAY: VIOLATED streaming handler succeeded after setting trailer k-bin=%%q; the caller sees err=%%v trailers=%%q", trailerVal, err, got)
+		}
+	}
+}
+`
+
+const invokeBodyCtxErrDriver = `package httpgrpc
+
+import (
+	"context"
+	"io"
+	"net/http"
+	"net/url"
+	"testing"
+
+	"google.golang.org/grpc/codes"
+	"google.golang.org/grpc/status"
+	"google.golang.org/protobuf/types/known/emptypb"
+)
+
+type zzCtxErrBody struct{ err error }
+
+func (b zzCtxErrBody) Read(p []byte) (int, error) { return 0, b.err }
+func (b zzCtxErrBody) Close() error               { return nil }
+
+type zzCtxErrRT struct{ err error }
+
+func (r zzCtxErrRT) RoundTrip(req *http.Request) (*http.Response, error) {
+	h := http.Header{}
+	h.Set("Content-Type", UnaryRpcContentType_V1)
+	return &http.Response{StatusCode: 200, Status: "200 OK", Header: h, Body: io.ReadCloser(zzCtxErrBody{r.err}), Request: req}, nil
+}
+
+// The read of the reply body fails with the error of the request context (net/http's
+// body does that when the context ends mid-body). Whichever case of Invoke's final
+// select wins, the caller must get a status, not the bare context error.
+func TestZZGovcReplay(t *testing.T) {
+	u, _ := url.Parse("http://example.test/")
+	for _, ce := range []error{context.DeadlineExceeded, context.Canceled} {
+		ch := &Channel{Transport: zzCtxErrRT{ce}, BaseURL: u}
+		err := ch.Invoke(context.Background(), "/svc/U", &emptypb.Empty{}, &emptypb.Empty{})
+		want := codes.DeadlineExceeded
+		if ce == context.Canceled {
+			want = codes.Canceled
+		}
+		if _, ok := status.FromError(err); !ok || status.Code(err) != want {
+			t.Errorf("GOVC-REPLAY: VIOLATED the read of the reply body failed with %v; Invoke returned %v (a status: %v, code %v), want a status with code %v", ce, err, ok, status.Code(err), want)
 		}
 	}
 }
